@@ -68,6 +68,7 @@ typedef struct actor {
     volatile int slices;       /* number of times it (re)gained control, for C11 */
     volatile int suspended;    /* between self-suspend call and its return */
     volatile int resumes_issued, suspends_returned;
+    volatile int pc_at_join, join_seen;
 } actor;
 
 typedef struct {
